@@ -159,22 +159,24 @@ func maxInt64(a, b int64) int64 {
 }
 
 func companionPartExists(cmp *sts.Partial, beg, end int64) bool {
-	overlap := int64(0)
-	var n int64
-	var minEnd int64
-	var maxBeg int64
-	for _, p := range cmp.Parts {
-		maxBeg = maxInt64(beg, p.Beg)
-		minEnd = minInt64(end, p.End)
-		n = minEnd - maxBeg
-		if n > 0 {
-			overlap += n
-			if overlap == end-beg {
-				return true
+	if end < beg {
+		return false
+	}
+	// The recorded parts may overlap one another (a conflicting part replaces
+	// only the first part it conflicts with), so adding up the overlaps would
+	// count some bytes twice and claim bytes that were never received.  Instead,
+	// walk a cursor from beg toward end using only bytes that are on record.
+	pos := beg
+	for progressed := true; progressed && pos < end; {
+		progressed = false
+		for _, p := range cmp.Parts {
+			if p.Beg <= pos && pos < p.End {
+				pos = p.End
+				progressed = true
 			}
 		}
 	}
-	return overlap == end-beg
+	return pos >= end
 }
 
 func isCompanionComplete(cmp *sts.Partial) bool {
